@@ -50,7 +50,7 @@ struct Scenario {
     std::string flavour;
 
     bool isTsm() const { return executor.size() >= 3 && executor.compare(executor.size() - 3, 3, "tsm") == 0; }
-    bool isFloat() const { return kernel == "weight_float" || kernel == "rot_float"; }
+    bool isFloat() const { return kernel == "weight_float" || kernel == "weight_f35" || kernel == "rot_float"; }
     bool isNumeric() const { return kernel == "rot" || kernel == "unif" || kernel == "rot_float"; }
     bool isPeriodic() const { return ordering == "periodic"; }
     bool isTaskBased() const { return executor != "seq" && executor != "seqtsm"; }
